@@ -25,15 +25,15 @@ PROPS = {
     "C03": {"families": ["binding_body", "binding_head", "norm_inline", "cleanup_mappings", "dep_create_domain"], "oracle": "struct"},
     "C04": {"families": ["unique_variables", "unique_names", "binding_body"], "oracle": "struct"},
     "C05": {"families": ["norm_replace_old_aggregates", "norm_remove_bounds", "norm_expand_comparisons", "norm_unpool", "norm_preprocess", "norm_exline", "norm_inline", "norm_none"], "oracle": "sem"},
-    "C06": {"families": [], "oracle": "sem"},
+    "C06": {"families": ["projection_execute", "cleanup_execute", "symmetry_execute", "minmax_execute", "sumchains_execute"], "oracle": "sem"},
     "C07": {"families": ["unique_variables", "unique_names"], "oracle": "struct"},
     "C17": {"families": [], "oracle": "struct", "quick_cap": 150},
     "C20": {"families": ["dep_static", "dep_domains", "dep_create_domain", "dep_names", "dep_chain"], "oracle": "struct"},
     "C08": {"families": ["cleanup_mappings", "cleanup_superseeded", "cleanup_apply", "cleanup_execute_core", "cleanup_execute"], "oracle": "sem"},
     "C09": {"families": ["unused_anonymize", "unused_usage", "unused_project", "unused_remove", "unused_single_copies", "unused_execute_core", "unused_execute"], "oracle": "sem"},
     "C10": {"families": [], "oracle": "sem"},
-    "C11": {"families": [], "oracle": "sem"},
-    "C12": {"families": [], "oracle": "sem"},
+    "C11": {"families": ["symmetry_replace_simple", "symmetry_inequalities", "symmetry_equal_symbols", "symmetry_groups", "symmetry_bundle", "symmetry_process", "symmetry_execute"], "oracle": "sem"},
+    "C12": {"families": ["minmax_analysis", "minmax_simple_translation", "minmax_chain_translation", "minmax_process_rule", "minmax_split_element", "minmax_replace_minimize", "minmax_replace_sum", "minmax_execute"], "oracle": "sem"},
     "C13": {"families": ["sumchains_agg_analytics", "sumchains_at_most_rule", "sumchains_init", "sumchains_get_trigger", "sumchains_element_passes", "sumchains_replace_elements", "sumchains_get_var", "sumchains_replace_optimize", "sumchains_execute"], "oracle": "sem"},
     "C14": {"families": [], "oracle": "sem"},
     "C15": {"families": ["unify_pairs", "unify_sequences", "inline_is_single", "inline_transform_args", "inline_body_aggregate", "inline_new_body_elements", "inline_minimize", "inline_rule_for_agg", "inline_rule_for_body", "inline_execute"], "oracle": "sem"},
@@ -253,7 +253,7 @@ def search(prop, tier, rng, inputs, fam_results, known):
         for c in cands[:40]:
             for m in inp_mod.sign_mutants(c["text"], rng, 25):
                 extra.append({"text": m, "origin": c["origin"] + "+sign-mutant"})
-        cands = [pl for c in cands + extra for pl in semprops.payloads(prop, [c])]
+        cands = [dict(pl, n_instances=40) for c in cands + extra for pl in semprops.payloads(prop, [c])]
         stream = itertools.chain(cands, oracle_cases(prop, tier, rng, inputs, fixed_only=False), gen)
         while time.time() - t0 < budget:
             batch = list(itertools.islice(stream, 128))
